@@ -32,9 +32,11 @@ BUDGET_S = {"quick": 75, "thorough": 900}
 
 def plan(tier):
     if tier == "quick":
-        return [{"part": "hist", "n": 45, "i": i} for i in range(15)] + [{"part": "long", "datagrams": 70000, "seed": 1}]
+        return [{"part": "hist", "n": 45, "i": i} for i in range(14)] + [{"part": "long", "datagrams": 70000, "seed": 1},
+                                                                         {"part": "fast", "steps": 105000, "dt": 9e-6, "seed": 1}]
     return [{"part": "hist", "n": 500, "i": i} for i in range(8)] + \
-           [{"part": "long", "datagrams": 215000, "seed": i} for i in range(8)]
+           [{"part": "long", "datagrams": 215000, "seed": i} for i in range(8)] + \
+           [{"part": "fast", "steps": 150000, "dt": dt, "seed": i} for i, dt in enumerate([1e-5, 1e-6, 1e-4, 3e-6])]
 
 
 tick = st.lists(st.tuples(st.sampled_from(["c", "s"]), scen.size_specs, st.sampled_from(scen.RETRIES)).map(list), min_size=0, max_size=2)
@@ -217,7 +219,39 @@ def long_body(ctx, spec):
         return {"wrapped": wraps, "c2s": c2s, "s2c": s2c, "virtual_s": w.clock.t - 1000.0, "stats": stats}
 
 
+def fast_body(ctx, spec):
+    """an application that calls update() far more often than 60 times a second (clock advancing by microseconds) while both
+    sides always have something to send: the protocol's own send-rate cap must keep a 16-bit wrap from happening inside
+    one clock second"""
+    with W.World(seed=spec["seed"], flavour="udp") as w:
+        ch = w.connect_client()
+        w.run(1.0, 0.017)
+        uid = 0
+        dt = spec["dt"]
+        ch.drain = 1
+        # start just after a second boundary so that as many update() calls as possible share one clock second
+        while w.clock.t - int(w.clock.t) > 0.02:
+            w.step(0.017)
+        for ti in range(spec["steps"]):
+            uid += 1
+            scen.do_send(w, ch, "c", 8, 0, uid, callback=False)
+            uid += 1
+            scen.do_send(w, ch, "s", 8, 0, uid, callback=False)
+            w.step(dt)
+        stats = judge(ctx, w, {ch.laddr: 1}, scan_ids=False, sample_every=50)
+        c2s = sum(1 for em in w.net.log if em.to_server)
+        return {"datagrams": len(w.net.log), "c2s": c2s, "virtual_s": w.clock.t - 1000.0, "stats": stats}
+
+
 def run_shard(spec, ctx):
+    if spec["part"] == "fast":
+        ctx.case({"part": "fast", "spec": spec})
+        r = fast_body(ctx, spec)
+        ctx.extra["datagrams_judged"] = ctx.extra.get("datagrams_judged", 0) + r["stats"]["datagrams"]
+        ctx.label("fast-caller")
+        ctx.nt(("fast", spec["seed"], spec["dt"]))
+        ctx.sample({"part": "fast", "update_calls": spec["steps"], "clock_step_s": spec["dt"], "datagrams_emitted": r["datagrams"], "virtual_seconds": round(r["virtual_s"], 3)})
+        return
     if spec["part"] == "hist":
         @ctx.given(spec["n"], histories, salt=spec["i"])
         def test(c):
@@ -251,5 +285,7 @@ def replay_case(case, ctx):
     ctx.case(case)
     if case["part"] == "hist":
         hist_body(ctx, case["c"])
+    elif case["part"] == "fast":
+        fast_body(ctx, case["spec"])
     else:
         long_body(ctx, case["spec"])
